@@ -21,6 +21,11 @@ def plan(ctx):
                 sets += rnd.sample(list(esets(n, m, m)), 2)
         for i, ch in enumerate(chunks(sets, 1)):
             obs.append(be_l1_ob(be, k, m, m, ch, w=1, tag="isal", idx=i, timeout=1200))
+    # m >= 3: a lost data fragment together with two or more lost parities (the synthesised parity rows of get_inverse_rows depend on each other's bookkeeping)
+    for be, k, m in [(ISAC, 3, 3), (ISAV, 4, 3)] + ([(ISAC, 5, 3), (ISAV, 4, 4)] if thorough else []):
+        sets = [(0, k, k + 1), (k - 1, k + 1, k + 2), (0, 1, k + 2), (1, k, k + 2)]
+        for i, ch in enumerate(chunks(sets, 1)):
+            obs.append(be_l1_ob(be, k, m, m, ch, tag="isalm3", idx=i, timeout=1500))
     # larger / corner shapes, sampled sets (gf_gen_rs_matrix is not MDS for every shape: singular survivor sets must give an error)
     big = [(ISAV, 10, 4)] + ([(ISAC, 10, 4), (ISAV, 12, 4), (ISAC, 12, 6), (ISAV, 16, 4), (ISAV, 20, 4), (ISAC, 16, 8)] if thorough else [])
     for be, k, m in big:
